@@ -394,6 +394,14 @@ def _(tier, seed):
                 check(b"".join(tup), n <= 3 or rng.random() < 0.06)
                 if len(failures) >= 3:
                     raise StopIteration
+        # two-byte constructs that a buffer cut can split: raw CR LF inside a string, escapes, hex pairs, name escapes, >> and <<
+        for frag in (b"(\r\n)", b"(a\r\nb)", b"(\r\r\n\n)", b"(a\\\r\nb)", b"(\\053)", b"(\\5)", b"<41 4>", b"<4\n1>", b"/A#41#4", b"/#412", b"<<>>", b"<< >>", b"[<<>>]", b"%c\r1", b"%c\r\n1",
+                     b"1.5e", b"-.5", b"+", b"-", b"(()\\))", b"/a/b", b"true[false]"):
+            distinct += 1
+            check(frag, True)
+            check(b" " + frag + b" ", True)
+            if len(failures) >= 3:
+                raise StopIteration
         for _ in range(1500 if tier == "quick" else 30000):
             data = b"".join(rng.choice(alpha + [b"true", b"(a\\\r\nb)", b"<4 1>", b"/A#41", b"\\053", b"12.5"]) for _k in range(rng.randint(1, 12)))
             distinct += 1
